@@ -401,6 +401,10 @@ Definition py_setattr (o : pyval) (name : string) (v : pyval) : res pyval :=
 
 Definition cond (v : pyval) : bool := truthy v.
 
+(* raise <object>: exception objects are represented by VStr <class name> *)
+Definition py_raise {A} (e : pyval) : res A :=
+  match e with VStr cls => Err cls | _ => Err "TypeError" end.
+
 (* str(type(e)) for an exception object represented by its class name *)
 Definition py_type_str (e : pyval) : pyval :=
   match e with
